@@ -158,7 +158,8 @@ def main(argv=None) -> int:
         return 2
 
     # known findings: replay each stored trace, report it if it still fails
-    findings = core.open_findings(prop)
+    # every open finding that can suppress a clause of this property is announced by this check
+    findings = [f for f in core.open_findings() if f['property'] == prop or any(c[0] == prop for c in f.get('clauses', []))]
     for f in findings:
         rp = os.path.join(core.VERIF_DIR, f['replay'])
         payload = core.read_replay(rp)
